@@ -651,6 +651,13 @@ class C05(Profile):
         agg_add(st["calls"], op["f"])
         base = {"property": "C05", "step": step, "after": kind, "fault": None}
         eph = []
+        # I7: what the signal objects handed to the call report -- every derived quantity, read from a deep copy -- is
+        # recorded before the call and must be the same after it (a call may fill caches; it may not change a value)
+        obj_names = sorted({a["obj"] for a in list(op.get("args", [])) + list(op.get("kwargs", {}).values())
+                            if isinstance(a, dict) and "obj" in a and a["obj"] in world.objs})
+        if (step + len(op["f"])) % 3:
+            obj_names = []        # sampled (every third such call, decided by the record itself): C04 does this at every step
+        before = {nm: self._observables(world.objs[nm]) for nm in obj_names}
         # first call (an allocation failure may be injected into this one)
         seams.begin_op(arm)
         try:
@@ -659,6 +666,14 @@ class C05(Profile):
             fired, _sites = seams.end_op()
         if fired:
             base["fault"] = "K2"
+        for nm in obj_names:
+            after = self._observables(world.objs[nm])
+            st["object_checks"] += 1
+            for x in sorted(before[nm]):
+                if x in after and outcomes_agree(after[x], before[nm][x], 1e-13):
+                    return out1, dict(base, invariant="I7:object-observables-unchanged", cls=_cls_name(world.objs[nm]), victim=nm,
+                                      victim_kind="object",
+                                      what="%s changed what %s.%s reports (%s)" % (op["f"], nm, x, outcomes_agree(after[x], before[nm][x], 1e-13))), fired
         snaps = None
         # the ephemeral arrays were created inside _exec; to compare before/after we decode a pristine copy
         eph_ref = []
@@ -723,6 +738,16 @@ class C05(Profile):
                                            "arguments (arrays, object values, dt, settings) are unchanged: %s" % (op["f"], why),
                                       first=first.brief(), second=out1.brief()), None
         return out1, None, None
+
+    def _observables(self, obj):
+        try:
+            sub = copy.deepcopy(obj)
+        except Exception:  # noqa
+            return {}
+        out = {}
+        for x in (c04mod.OBS_ACC if _cls_name(obj) == "AccSignal" else c04mod.OBS_SIG):
+            out[x] = capture(getattr, sub, x)
+        return out
 
     def _call_key(self, world, op):
         parts = [op["f"]]
